@@ -1,8 +1,12 @@
 #!/bin/bash
-# usage: mutants.sh [props]   -- runs every patch under mutants/ and seeded/ against the given properties
-# (default: all claimed in MANIFEST.json) on scratch copies, 4 at a time; prints KILLED/SURVIVED per patch.
+# usage: mutants.sh [all]   -- runs every patch under mutants/ and seeded/ on scratch copies of /repo's HEAD, 4 at a time;
+# prints KILLED/SURVIVED per patch. A patch under mutants/<id>/ is run against property <id> (with "all": against every
+# claimed property); a patch under seeded/<id>{a,b}/ is always run against every claimed property, because a seeded change
+# may be caught by a contract of a neighbouring property.
 cd "$(dirname "$(readlink -f "$0")")/.."
-props=${1:-$(python3 -c "import json;print(','.join(c['property_id'] for c in json.load(open('MANIFEST.json'))['checks']))")}
-run_one(){ p=$1; out=$(./tools/runmutant.sh "$p" "$2" 2>&1); n=$(echo "$out" | grep -c "^VIOLATION"); if echo "$out" | grep -q PATCH-FAILED; then echo "PATCHFAIL $p"; elif echo "$out" | grep -q GOVC-ERROR; then echo "NOCOMPILE $p"; elif [ "$n" -gt 0 ]; then echo "KILLED   $p  [$(echo "$out" | grep "^VIOLATION" | sed 's/.*property=\([^ ]*\).*obligation=\([^ ]*\).*/\1:\2/' | sort -u | head -3 | tr '\n' ' ')]"; else echo "SURVIVED $p"; fi; }
+allprops=$(python3 -c "import json;print(','.join(c['property_id'] for c in json.load(open('MANIFEST.json'))['checks']))")
+mode=$1
+run_one(){ p=$1; props=$2; out=$(./tools/runmutant.sh "$p" "$props" 2>&1); n=$(echo "$out" | grep -c "^VIOLATION"); if echo "$out" | grep -q PATCH-FAILED; then echo "PATCHFAIL $p"; elif echo "$out" | grep -q GOVC-ERROR; then echo "NOCOMPILE $p"; elif [ "$n" -gt 0 ]; then echo "KILLED   $p  [$(echo "$out" | grep "^VIOLATION" | sed 's/.*property=\([^ ]*\).*obligation=\([^ ]*\).*/\1:\2/' | sort -u | head -3 | tr '\n' ' ')]"; else echo "SURVIVED $p"; fi; }
 export -f run_one
-(ls mutants/*/*.patch; ls seeded/*/patch.diff) | xargs -P 4 -I{} bash -c "run_one {} $props" | sort
+( for p in mutants/*/*.patch; do d=$(basename $(dirname $p)); if [ "$mode" = all ]; then echo "$p $allprops"; else echo "$p $d"; fi; done
+  for p in seeded/*/patch.diff; do echo "$p $allprops"; done ) | xargs -P 4 -L 1 bash -c 'run_one $0 $1' | sort
